@@ -149,14 +149,46 @@ template <class R> static std::string do_const(const R& F) {
     return o.str();
 }
 
+// ------------------------------------------------------------------ ways of obtaining the domain object
+// op may carry a suffix  @<how>:<p2>:<k2>   (p2^k2 = modulus of the domain that is overwritten):
+//   direct      R(p)
+//   copy        R G(p); R F(G)
+//   assign      R G(p); R F(p2); F = G                 (assignment over a domain of ANOTHER modulus: stale cached fields show)
+//   defassign   R G(p); R F;     F = G                 (assignment over a default-constructed domain)
+//   randiter    R G(p), H(p2); RandIter a(G), b(H); b = a;  domain = b.ring()      (RandIter::operator= assigns the ring it refers to)
+//   copyassign  R G(p); R H(p2); H = G; R F(H)         (copy of an assigned domain)
+// A form the ring type does not have prints NOFORM.  Objects are deliberately never destroyed (table rings share tables).
+template <class R, bool OK> struct DefAssign { static R* go(R*) { return 0; } };
+template <class R> struct DefAssign<R, true> { static R* go(R* G) { R* F = new R(); *F = *G; return F; } };
+template <class R, bool OK> struct OverAssign { static R* go(R*, R*) { return 0; } };
+template <class R> struct OverAssign<R, true> { static R* go(R* G, R* H) { *H = *G; return H; } };
+template <class R, bool OK> struct IterAssign { static R* go(R*, R*) { return 0; } };
+template <class R> struct IterAssign<R, true> { static R* go(R* G, R* H) {
+    typename R::RandIter* a = new typename R::RandIter(*G); typename R::RandIter* b = new typename R::RandIter(*H);
+    typename R::RandIter* c = new typename R::RandIter(*a);      // a copy of the iterator, then assignment from the copy
+    *b = *c; return const_cast<R*>(&b->ring()); } };
+template <class R> static R* obtain(const std::string& how, const mpz_t p, unsigned k, const mpz_t p2, unsigned k2) {
+    R* G = Build<R>::go(p, k);
+    if (how == "direct") return G;
+    if (how == "copy") return new R(*G);
+    if (how == "defassign") return DefAssign<R, std::is_default_constructible<R>::value && std::is_copy_assignable<R>::value>::go(G);
+    R* H = Build<R>::go(p2, k2);
+    if (how == "assign") return OverAssign<R, std::is_copy_assignable<R>::value>::go(G, H);
+    if (how == "copyassign") { R* A = OverAssign<R, std::is_copy_assignable<R>::value>::go(G, H); return A ? new R(*A) : 0; }
+    if (how == "randiter") return IterAssign<R, std::is_copy_assignable<typename R::RandIter>::value && std::is_copy_assignable<R>::value>::go(G, H);
+    return 0;
+}
+static std::string g_how = "direct"; static mpz_t g_p2; static unsigned g_k2 = 1;
+
 template <class R> static std::string run_ring(const std::string& op, const std::string& src, const mpz_t p, unsigned k, const mpz_t x) {
     if (op == "card") {
         std::ostringstream o; o << show(R::minCardinality()) << " " << show(R::maxCardinality()); return o.str();
     }
     // ring objects are cached per (p,k): building Log16/GFq tables is expensive
     static std::string lastkey; static R* F = 0;
-    std::string key = mpz_str(p) + "^" + std::to_string(k);
-    if (key != lastkey) { delete F; F = Build<R>::go(p, k); lastkey = key; }
+    std::string key = mpz_str(p) + "^" + std::to_string(k) + "@" + g_how + ":" + mpz_str(g_p2) + ":" + std::to_string(g_k2);
+    if (key != lastkey) { F = obtain<R>(g_how, p, k, g_p2, g_k2); lastkey = key; }
+    if (F == 0) return "NOFORM";
     if (op == "const") return do_const<R>(*F);
 #define SRC(NAME, T) if (src == NAME) return do_init<R, T>(*F, op, x);
     SRC("i8", int8_t) SRC("u8", uint8_t) SRC("i16", int16_t) SRC("u16", uint16_t)
@@ -171,11 +203,20 @@ template <class R> static std::string run_ring(const std::string& op, const std:
 int main() {
     std::ios::sync_with_stdio(false);
     std::string line;
-    mpz_t p, x; mpz_init(p); mpz_init(x);
+    mpz_t p, x; mpz_init(p); mpz_init(x); mpz_init(g_p2);
     while (std::getline(std::cin, line)) {
         std::istringstream is(line);
         std::string op, ring, src, ps, xs; unsigned k = 1;
         if (!(is >> op >> ring >> src >> ps >> k >> xs)) { if (!line.empty()) std::cout << "BAD-LINE\n"; continue; }
+        g_how = "direct"; mpz_set_ui(g_p2, 0); g_k2 = 1;
+        { size_t at = op.find('@');
+          if (at != std::string::npos) {
+              std::string h = op.substr(at + 1); op = op.substr(0, at);
+              size_t c1 = h.find(':'), c2 = h.find(':', c1 == std::string::npos ? 0 : c1 + 1);
+              if (c1 != std::string::npos && c2 != std::string::npos) {
+                  g_how = h.substr(0, c1); mpz_set_str(g_p2, h.substr(c1 + 1, c2 - c1 - 1).c_str(), 10); g_k2 = (unsigned)std::stoul(h.substr(c2 + 1));
+              } else g_how = h;
+          } }
         mpz_set_str(p, ps.c_str(), 10); mpz_set_str(x, xs.c_str(), 10);
         std::string out;
 #define RING(NAME, ...) else if (ring == NAME) out = run_ring<__VA_ARGS__ >(op, src, p, k, x);
